@@ -12,19 +12,27 @@ LEAN_MODULES = ["QExPy.Props.C19"]
 THEOREMS = ["QExPy.Plot.C19_mask", "QExPy.Plot.C19_mask_none", "QExPy.Plot.C19_dataset_draw",
             "QExPy.Plot.C19_linspace", "QExPy.Plot.C19_band", "QExPy.Plot.C19_function_range",
             "QExPy.Plot.C19_curve_value", "QExPy.Plot.C19_domain", "QExPy.Plot.C19_order_independent",
-            "QExPy.Plot.C19_residual_panel", "QExPy.Plot.C19_hist", "QExPy.Plot.C19_label"]
-RULE = ("seeded plots of 1-5 objects added in random order: data sets (x/y uncertainties none / "
-        "common / per point; names, units; passed as arrays, XYDataSet or MeasurementArrays; x-ranges "
-        "with bounds exactly on points, between points, outside), functions (8 formula families, "
-        "plain-number and measured parameters, own range or the plot domain), fit results of every "
-        "pre-set model and a custom model (added through Plot.fit and through plot(result), with "
-        "and without a fit range), histograms (integer bins, bins+range, uniform and non-uniform "
-        "explicit edges, samples exactly on edges; MeasurementArray or list input); the three "
-        "switches, label overrides, plot.xrange. Each plot is rendered by savefig on Agg and the "
-        "artists (Line2D data, error-bar segments, fill_between polygon, bar rectangles, axis "
-        "labels, legend texts) are read back, canonicalised and diffed with the model's draw "
-        "commands. Non-trivial = at least two object kinds on the plot and an x-range that removes "
-        "at least one point; distinct by hash of the case")
+            "QExPy.Plot.C19_residual_panel", "QExPy.Plot.C19_hist", "QExPy.Plot.C19_hist_weights",
+            "QExPy.Plot.C19_hist_unit_weights", "QExPy.Plot.C19_hist_density", "QExPy.Plot.C19_label"]
+RULE = ("seeded plot HISTORIES: 1-9 objects added in random order to one Plot, which is rendered, "
+        "then (85 % of the cases) further objects are added and/or the plot's x-range, the error-bar / "
+        "residual / legend switches and the label overrides are changed and it is rendered again "
+        "(2 or 3 renders); every render is compared with the model's render of the plot state at "
+        "that point. Objects: data sets (x/y uncertainties none / common / per point; names, units; "
+        "passed as arrays, XYDataSet or MeasurementArrays; x-ranges with bounds exactly on points, "
+        "between points, outside), functions (8 formula families, plain-number and measured "
+        "parameters, own range or the plot domain), fit results of every pre-set model and a custom "
+        "model (through Plot.fit and plot(result), with and without a fit range, a second Plot.fit "
+        "on the same data, Plot.fit on a histogram), histograms (integer bins, bins+range, uniform "
+        "and non-uniform explicit edges, named rules auto/sturges/sqrt/fd/doane/scott/rice/stone, "
+        "density=True, weights=[...], combinations; samples exactly on edges; MeasurementArray or "
+        "list input; two histograms on one plot). Each render goes through savefig on Agg and the "
+        "artists (Line2D data, error-bar segments, fill_between polygon, bar rectangles, axis labels, "
+        "legend texts and which artist carries which) are read back, canonicalised and diffed with "
+        "the model's draw commands; histogram bars are also compared with the values returned to "
+        "the caller and with numpy.histogram / numpy.histogram_bin_edges on the same arguments. "
+        "Non-trivial = at least two object kinds on the plot and an x-range that removes at least "
+        "one point; distinct by hash of the history")
 ASSUMPTIONS = ["matplotlib draws what its artists hold (Agg rasterisation is not inspected)",
                "numpy.histogram / numpy.linspace are exercised, not modelled beyond their contracts",
                "the Monte-Carlo fit curve is compared statistically (6 sigma of the sampling error "
@@ -35,8 +43,9 @@ TRUSTED = ["exercised not modelled: matplotlib artists API, numpy.histogram, num
            "section fitters); curve length, x-range mask test and axis-label format are generated "
            "(section plot)"]
 LEVEL_TEXT = ("Lean 4 theorems about an executable render model (mask, linspace, domain, band, "
-              "histogram totals, labels, order independence); correspondence-led: the model's draw "
-              "commands are diffed with the matplotlib artists of the real plot on every run")
+              "histogram totals incl. weights and density, labels, order independence); "
+              "correspondence-led: the model's draw commands are diffed with the matplotlib artists "
+              "of the real plot after every render of a history, on every run")
 LEVEL_NOTE = ("partial: matplotlib and numpy.histogram are exercised, not modelled; the Monte-Carlo "
               "curve of a fit is checked statistically")
 TECHNIQUE = ("Lean 4 machine-checked proof over an executable model + differential correspondence "
@@ -59,6 +68,21 @@ def _det(impl, mb, scale):
     if not math.isfinite(mv):
         return (not math.isfinite(impl)) or None
     return close(impl, mv, bound) or abs(impl - mv) <= REL * max(abs(mv), abs(impl), scale)
+
+
+def _nonlin(model, params, x):
+    """relative first-order change of a non-linear pre-set model at x under the parameter
+    uncertainties (exponential c*exp(-a x): sigma_a |x|; gaussian: |z| sigma_mean/std +
+    |z^2-1| sigma_std/std with z = (x-mean)/std)"""
+    if model == "exponential":
+        return params[1][1] * abs(x)
+    if model == "gaussian":
+        (m, sm), (sd, ss) = params[1], params[2]
+        if sd == 0:
+            return float("inf")
+        z = (x - m) / sd
+        return (abs(z) * sm + abs(z * z - 1) * ss) / abs(sd)
+    return 0.0
 
 
 def split_model(cmds):
@@ -286,12 +310,13 @@ def judge(case, o, m):
             else:
                 api = o["api"][oi]
                 err = api["ff"]["errors"][i]
-                # The band is the Monte-Carlo standard deviation; it is comparable with the
-                # first-order uncertainty of fit_function(x) only where the model is (nearly)
-                # linear in the parameters. Sample std of 10000 draws: 6/sqrt(2N) = 4.3 %.
-                linear = ob["model"] in ("linear", "quadratic", "polynomial", "custom") or \
-                    all(e <= 0.02 * abs(v) for v, e in api["params"])
-                if linear and abs(half - err) > 0.10 * err + REL * sc:
+                # The band is the Monte-Carlo standard deviation; it equals the first-order
+                # uncertainty of fit_function(x) up to O(eps^2 |f|), eps = the relative change of f
+                # under the parameter uncertainties (0 for models linear in the parameters; where
+                # the first-order terms nearly cancel the second-order term is all there is).
+                # Sample std of 10000 draws: 6/sqrt(2N) = 4.3 %.
+                eps = _nonlin(ob["model"], api["params"], bnd["xs"][i])
+                if eps <= 0.05 and abs(half - err) > 0.10 * err + 2 * eps * eps * abs(y) + REL * sc:
                     fail("fitband:width", "fit band half-width at x={!r} is {!r}, "
                          "fit_function(x).error is {!r}".format(bnd["xs"][i], half, err), indep=True,
                          impl=half, expected=err, clause="band = y +/- err (statistical)")
@@ -316,41 +341,101 @@ def judge(case, o, m):
     skipped = False
     hi_ = 0
     for b, mc, oi in zip(A["bars"], M["bars"], bar_src):
+        ob = case["objs"][oi]
         api = o["api"][oi]
         mh = m["hists"][hi_]
         hi_ += 1
         rn, re_ = api["returned"]
-        if len(b["heights"]) != len(rn) or any(h != n for h, n in zip(b["heights"], rn)) or \
-                len(b["edges"]) != len(re_) or any(not _near(x, e, rel=1e-9, scale=abs(re_[-1]))
+        wts = ob.get("weights")
+        plain = not ob.get("density") and wts is None
+        how = "hist({})".format(", ".join(
+            ["bins={}".format(ob["bins"] if not isinstance(ob["bins"], list) else "edges")] +
+            (["range"] if ob["range"] else []) + (["density=True"] if ob.get("density") else []) +
+            (["weights"] if wts is not None else [])))
+        hsc = max([abs(v) for v in rn] + [1e-300])
+        esc = max(abs(re_[0]), abs(re_[-1])) if re_ else 0.0
+        if len(b["heights"]) != len(rn) or any(not _near(h, n, scale=hsc) for h, n in zip(b["heights"], rn)) or \
+                len(b["edges"]) != len(re_) or any(not _near(x, e, rel=1e-9, scale=esc)
                                                    for x, e in zip(b["edges"], re_)):
-            fail("hist:returned-vs-drawn", "object {}: bars {} on edges {} but hist() returned {} on "
-                 "{}".format(oi, b["heights"], b["edges"], rn, re_), indep=True,
+            fail("hist:returned-vs-drawn", "object {} {}: bars {} on edges {} but hist() returned {} on "
+                 "{}".format(oi, how, b["heights"], b["edges"], rn, re_), indep=True,
                  impl=[b["heights"], b["edges"]], expected=[rn, re_],
-                 clause="bars are the counts returned to the caller")
+                 clause="bars are the values returned to the caller")
             return fails, False
+        # numpy.histogram on the same samples and the same arguments (independent of the model)
+        nn, ne = api["numpy"]
+        nsc = max([abs(v) for v in nn] + [1e-300])
+        if len(nn) != len(rn) or any(not _near(a_, n_, scale=nsc) for a_, n_ in zip(rn, nn)) or \
+                len(ne) != len(re_) or any(not _near(a_, n_, rel=1e-12, scale=esc) for a_, n_ in zip(re_, ne)):
+            fail("hist:returned-vs-numpy", "object {} {}: hist() returned {} on {} but numpy.histogram "
+                 "with the same arguments gives {} on {}".format(oi, how, rn, re_, nn, ne), indep=True,
+                 impl=[rn, re_], expected=[nn, ne], clause="bars are the bin counts of its samples")
+            return fails, False
+        if "numpy_edges" in api:
+            nb = api["numpy_edges"]
+            if len(nb) != len(re_) or any(not _near(a_, n_, rel=1e-12, scale=esc) for a_, n_ in zip(re_, nb)):
+                fail("hist:edges-vs-numpy-rule", "object {} {}: bin edges {} but numpy.histogram_bin_edges"
+                     " gives {}".format(oi, how, re_, nb), indep=True, impl=re_, expected=nb,
+                     clause="histograms with any binning")
+                return fails, False
         me = _fbl(mc["edges"])
         if len(me) != len(re_) or any(_det(e, x, abs(re_[-1]) + abs(re_[0])) is False
                                       for e, x in zip(re_, me)):
-            fail("hist:edges", "object {}: bin edges {} but the binning gives {}".format(
-                oi, re_, [v for v, _ in me]), impl=re_, expected=[v for v, _ in me],
+            fail("hist:edges", "object {} {}: bin edges {} but the binning gives {}".format(
+                oi, how, re_, [v for v, _ in me]), impl=re_, expected=[v for v, _ in me],
                 clause="bin edges")
             return fails, False
         if mh["ambiguous"]:
             skipped = True      # a sample within rounding of a computed edge: not judged
             continue
-        if [int(h) for h in b["heights"]] != list(mc["counts"]) or any(h != int(h) for h in b["heights"]):
-            fail("hist:counts", "object {}: bars {} but the bin counts of the samples are {}".format(
-                oi, b["heights"], mc["counts"]), impl=b["heights"], expected=mc["counts"],
-                clause="bars are the bin counts of the samples")
-            return fails, False
+        if plain:
+            if [int(h) for h in b["heights"]] != list(mh["counts"]) or any(h != int(h) for h in b["heights"]):
+                fail("hist:counts", "object {} {}: bars {} but the bin counts of the samples are {}".format(
+                    oi, how, b["heights"], mh["counts"]), impl=b["heights"], expected=mh["counts"],
+                    clause="bars are the bin counts of the samples")
+                return fails, False
+        else:
+            mhs = _fbl(mc["heights"])
+            if len(mhs) != len(b["heights"]) or any(
+                    _det(h, x, hsc) is False for h, x in zip(b["heights"], mhs)):
+                fail("hist:values", "object {} {}: bars {} but the {} of the samples are {}".format(
+                    oi, how, b["heights"], "densities" if ob.get("density") else "weighted counts",
+                    [v for v, _ in mhs]), impl=b["heights"], expected=[v for v, _ in mhs],
+                    clause="bars are the bin counts of the samples (weights / density)")
+                return fails, False
+        # brute-force totals
         lo, hi = re_[0], re_[-1]
-        inside = sum(1 for s in case["objs"][oi]["samples"] if lo <= s <= hi)
-        if sum(b["heights"]) != inside:
-            fail("hist:total", "object {}: bars sum to {} but {} samples lie inside [{}, {}]".format(
-                oi, sum(b["heights"]), inside, lo, hi), indep=True, impl=sum(b["heights"]),
+        ww = wts if wts is not None else [1.0] * len(ob["samples"])
+        inside = math.fsum(w_ for s_, w_ in zip(ob["samples"], ww) if lo <= s_ <= hi)
+        wsc = math.fsum(abs(w_) for w_ in ww)
+        if ob.get("density"):
+            area = math.fsum(h * (re_[k + 1] - re_[k]) for k, h in enumerate(b["heights"]))
+            if inside > 0 and abs(area - 1.0) > 1e-9:
+                fail("hist:density-area", "object {} {}: bars times widths sum to {!r}, a normalised "
+                     "histogram integrates to 1".format(oi, how, area), indep=True, impl=area,
+                     expected=1.0, clause="density")
+                return fails, False
+        elif abs(math.fsum(b["heights"]) - inside) > (0 if plain else 1e-9 * wsc):
+            fail("hist:total", "object {} {}: bars sum to {} but the samples inside [{}, {}] weigh {}".format(
+                oi, how, math.fsum(b["heights"]), lo, hi, inside), indep=True, impl=math.fsum(b["heights"]),
                 expected=inside, clause="bin counts of its samples")
             return fails, False
         stats["hist_bins"] += len(rn)
+    # ---------------- Plot.fit applied to a histogram: the curve belongs to the bars that are drawn
+    for oi, ob in enumerate(case["objs"]):
+        if ob["t"] == "fit" and ob.get("on") == "hist" and ob.get("target") is not None:
+            rn, re_ = o["api"][ob["target"]]["returned"]
+            d = o["api"][oi]["data"]
+            cx = [(re_[k] + re_[k + 1]) / 2 for k in range(len(re_) - 1)]
+            hsc = max([abs(v) for v in rn] + [1e-300])
+            if len(d["xs"]) != len(cx) or any(not _near(a_, b_, rel=1e-12, scale=abs(re_[-1]))
+                                              for a_, b_ in zip(d["xs"], cx)) or \
+                    any(not _near(a_, b_, scale=hsc) for a_, b_ in zip(d["ys"], rn)):
+                fail("fit-on-hist:data", "object {}: Plot.fit on the histogram (object {}) fitted {} at {} "
+                     "but the bars are {} at the bin centres {}".format(
+                         oi, ob["target"], d["ys"], d["xs"], rn, cx), impl=[d["xs"], d["ys"]],
+                     expected=[cx, rn], clause="a fit of a histogram is a fit of its bars")
+                return fails, False
     # ---------------- labels, legend
     labs = {"x": A["xlabel"], "y": A["ylabel"], "title": A["title"]}
     if R is not None:
@@ -373,6 +458,18 @@ def judge(case, o, m):
         fail("legend", "legend texts {!r}, should be {!r}".format(A["legend"], M["legend"]),
              impl=A["legend"], expected=M["legend"], clause="legend switch")
         return fails, False
+    if case["legend"]:
+        # which artist carries which legend text
+        arts = [(oi, a["label"]) for a, oi in zip(A["lines"], main_src)] + \
+               [(oi, b["label"]) for b, oi in zip(A["bars"], bar_src)]
+        for oi, lab in arts:
+            lab = "" if lab.startswith("_") else lab
+            want = G.legend_label(case["objs"][oi])
+            if lab != want:
+                fail("legend:artist-label", "object {} ({}) appears in the legend as {!r}, its label is "
+                     "{!r}".format(oi, case["objs"][oi]["t"], lab, want), impl=lab, expected=want,
+                     clause="legend")
+                return fails, False
     # ---------------- domain (reported by the model; used by the ranged-less functions above)
     return fails, skipped, stats
 
@@ -395,8 +492,8 @@ def _observe_chunk(chunk):
 
 
 def _observe_parallel(cases, workers=None):
-    """thorough tier: the real plots are built and rendered in worker processes (each case
-    seeds numpy itself, so the result does not depend on the scheduling)"""
+    """the real plots are built and rendered in worker processes (each case seeds numpy itself
+    before every render, so the result does not depend on the scheduling)"""
     import concurrent.futures as cf
     import multiprocessing as mp
     workers = workers or max(1, min(16, (os.cpu_count() or 2)))
@@ -409,18 +506,33 @@ def _observe_parallel(cases, workers=None):
     return out
 
 
+def _renders(case, o):
+    """[(render number, plot state at that render, what was observed at that render)]: the first
+    render and one more per step of the history"""
+    sts = G.states(case)
+    out = [(1, sts[0], o)]
+    if "api" in o:
+        for k, r in enumerate(o.get("renders", [])):
+            ok = dict(r)
+            if "main" in r:
+                ok["api"] = o["api"]
+            out.append((k + 2, sts[k + 1], ok))
+    return out
+
+
 def run_cases(ctx, cases):
     import numpy as np
     import qexpy as q
     if not G.self_test_parse_band(np):
         raise RuntimeError("fill_between polygon layout is not the one the artist reader expects")
     failures, nontrivial, skipped = [], set(), 0
-    if len(cases) > 150:
+    if len(cases) > 8:
         obs = _observe_parallel(cases)
     else:
         obs = [G.observe(q, np, c) for c in cases]
-    idx = [i for i, o in enumerate(obs) if "api" in o]
-    mod = ctx.model([G.model_line(cases[i], obs[i]) for i in idx]) if idx else []
+    rend = [_renders(c, o) for c, o in zip(cases, obs)]
+    idx = [(i, k) for i, rs in enumerate(rend) for k, (_, _, ok_) in enumerate(rs) if "api" in ok_]
+    mod = ctx.model([G.model_line(rend[i][k][1], rend[i][k][2]) for i, k in idx]) if idx else []
     mods = dict(zip(idx, mod))
     dist = collections.Counter()
     samples = []
@@ -435,26 +547,52 @@ def run_cases(ctx, cases):
                     dist["fit-on-histogram"] += 1
             if ob["t"] == "hist":
                 dist["hist:" + ("edges" if isinstance(ob["bins"], list) else
+                                "rule" if isinstance(ob["bins"], str) else
                                 "bins+range" if ob["range"] else "bins")] += 1
+                dist["hist:density"] += 1 if ob.get("density") else 0
+                dist["hist:default-bins"] += 1 if ob.get("default_bins") else 0
+                dist["hist:weights"] += 1 if ob.get("weights") is not None else 0
             if ob["t"] == "dataset":
                 dist["dataset:" + ("range" if ob["range"] else "norange")] += 1
             if ob["t"] == "function":
                 dist["function:" + ("own-range" if ob["range"] else "plot-domain")] += 1
         dist["nobj:{}".format(len(c["objs"]))] += 1
-        for sw in ("errorBars", "residuals", "legend"):
-            dist["{}={}".format(sw, c[sw])] += 1
-        r = judge(c, o, mods.get(i, {}))
-        fs, sk = r[0], r[1]
-        failures += fs
-        if sk:
-            skipped += 1
-        if len(r) > 2:
-            for k, v in r[2].items():
-                dist[k] += v
-        if not fs and not ("skip" in o) and _nontrivial(c):
+        dist["history:renders={}".format(1 + len(c.get("steps", [])))] += 1
+        for st in c.get("steps", []):
+            dist["step:adds-objects"] += 1 if st.get("add") else 0
+            for k_ in st.get("set", {}):
+                dist["step:sets-" + k_] += 1
+        case_failed = False
+        for k, (rno, state, ok_) in enumerate(rend[i]):
+            dist["renders"] += 1
+            for sw in ("errorBars", "residuals", "legend"):
+                dist["{}={}".format(sw, state[sw])] += 1
+            r = judge(state, ok_, mods.get((i, k), {}))
+            fs, sk = r[0], r[1]
+            if fs:
+                hist_ = G.describe_history(c)
+                for f in fs:
+                    # the replay carries the whole history and says which render differed
+                    f["case"] = c
+                    f["render"] = rno
+                    f["history"] = hist_
+                    f["what"] = "render {} of the history: {}".format(rno, f["what"])
+                    f["input"] = "render {} of {} | {}".format(rno, len(rend[i]), " || ".join(hist_))
+                    if rno > 1:
+                        f["signature"] += "@render{}".format(rno)
+            failures += fs
+            if sk:
+                skipped += 1
+            if len(r) > 2:
+                for kk, v in r[2].items():
+                    dist[kk] += v
+            if fs or "skip" in ok_ or "exception" in ok_:
+                case_failed = case_failed or bool(fs)
+                break
+        if not case_failed and not ("skip" in o) and _nontrivial(c):
             nontrivial.add(canon_hash(c))
         if len(samples) < 5 and "main" in o:
-            samples.append({"plot": G.describe(c),
+            samples.append({"plot": " || ".join(G.describe_history(c)),
                             "artists": {"lines": [(l["c"], len(l["xs"])) for l in o["main"]["lines"]],
                                         "bands": len(o["main"]["bands"]),
                                         "bars": [b["heights"] for b in o["main"]["bars"]],
@@ -465,18 +603,20 @@ def run_cases(ctx, cases):
 
 
 def correspond(ctx):
-    cases = [G.gen_case(ctx.rng) for _ in range(ctx.n(60, 4000))]
+    cases = [G.gen_history(ctx.rng) for _ in range(ctx.n(96, 3000))]
     return run_cases(ctx, cases)
 
 
 def search(ctx, broken):
     """independent oracles only: result.fit_function / result.residuals / the values returned by
-    hist() / brute-force sample totals, all read from the real API"""
-    cases = [G.gen_case(ctx.rng) for _ in range(ctx.n(60, 600))]
+    hist() / numpy.histogram on the same arguments / brute-force sample totals, all read from
+    the real API"""
+    cases = [G.gen_history(ctx.rng) for _ in range(ctx.n(96, 600))]
     r = run_cases(ctx, cases)
     return {"failures": [f for f in r["failures"] if f.get("oracle") == "independent"],
-            "strategy": ["API-level oracles (fit_function, residuals, returned histogram, sample "
-                         "totals, rendering must not raise) on {} plots".format(r["evaluations"])]}
+            "strategy": ["API-level oracles (fit_function, residuals, returned histogram, "
+                         "numpy.histogram, sample totals, rendering must not raise) on {} plot "
+                         "histories".format(r["evaluations"])]}
 
 
 def replay(ctx, rp):
@@ -484,5 +624,5 @@ def replay(ctx, rp):
     if not c:
         return {"fails": False, "note": "replay file carries no concrete input", "payload": rp}
     r = run_cases(ctx, [c])
-    return {"fails": bool(r["failures"]), "input": G.describe(c),
+    return {"fails": bool(r["failures"]), "input": G.describe_history(c),
             "failures": [{k: v for k, v in f.items() if k != "case"} for f in r["failures"]]}
